@@ -1,3 +1,4 @@
+#include <functional>
 // Compiled with the "z" configuration (-DUSINGZ, namespace Clipper2Lib_z).
 #include "clipper2/clipper.h"
 #include "side_z.hpp"
@@ -50,7 +51,12 @@ ZOut z_boolopD(int ct, int fr, const PathsZ& S, const PathsZ& C, int precision, 
   double scale = std::pow(2.0, std::ilogb(std::pow(10, precision)) + 1);
   if (cb) c.SetZCallback([&](const CZ::PointD&, const CZ::PointD&, const CZ::PointD&, const CZ::PointD&, CZ::PointD& pt) { pt.z = next; o.log.push_back({(i64)std::llround(pt.x * scale), (i64)std::llround(pt.y * scale), next}); --next; });
   if (!S.empty()) c.AddSubject(tod(S)); if (!C.empty()) c.AddClip(tod(C));
-  CZ::PathsD sc, so; o.ok = c.Execute((CZ::ClipType)ct, (CZ::FillRule)fr, sc, so);
+  CZ::PathsD sc, so;
+  if (cb == 2) {   // into a PolyTreeD: the polygons stored in the tree nodes carry the Z values too
+    CZ::PolyTreeD t; o.ok = c.Execute((CZ::ClipType)ct, (CZ::FillRule)fr, t, so);
+    std::function<void(const CZ::PolyPathD&)> walk = [&](const CZ::PolyPathD& n) { for (auto& ch : n) { sc.push_back(ch->Polygon()); walk(*ch); } };
+    walk(t);
+  } else o.ok = c.Execute((CZ::ClipType)ct, (CZ::FillRule)fr, sc, so);
   for (auto& p : sc) { PathZ q; for (auto& v : p) q.push_back({(i64)std::llround(v.x * scale), (i64)std::llround(v.y * scale), v.z}); o.closed.push_back(q); }
   return o;
 }
